@@ -300,13 +300,13 @@ namespace pika::threads::detail {
 
             case resource::static_priority:
             {
-                // set parameters for scheduler and pool instantiation and
-                // perform compatibility checks
-                std::size_t num_high_priority_queues =
-                    pika::detail::get_entry_as<std::size_t>(rtcfg_,
-                        "pika.thread_queue.high_priority_queues", thread_pool_init.num_threads_);
-                check_num_high_priority_queues(
-                    thread_pool_init.num_threads_, num_high_priority_queues);
+                // A static policy keeps every task on the worker it was given to, so every worker
+                // needs a high priority queue of its own: a task that yields with boosted priority
+                // is re-queued on high priority queue (worker % number of high priority queues),
+                // and only the first that many workers poll one. The setting
+                // pika.thread_queue.high_priority_queues (--pika:high-priority-threads) is meant
+                // for the stealing priority schedulers only.
+                std::size_t const num_high_priority_queues = thread_pool_init.num_threads_;
 
                 // instantiate the scheduler
                 using local_sched_type = pika::threads::detail::static_priority_queue_scheduler<>;
